@@ -183,6 +183,17 @@ def classify(spec, doc):
             if any(isinstance(a, bool) != isinstance(b, bool) and a == b
                    for a in pool for b in pool):
                 return 'boolnum'
+    for op in ('$pullAll', '$pull'):
+        b2 = spec.get(op)
+        if isinstance(b2, dict):
+            for p, arg in b2.items():
+                items = arg if isinstance(arg, list) else [arg]
+                cur = refupdate.get_at(doc, p.split('.'))
+                have = cur[1] if cur[0] == 'value' and isinstance(cur[1], list) else []
+                if any(isinstance(a, bool) != isinstance(b, bool) and not isinstance(a, (dict, list))
+                       and not isinstance(b, (dict, list)) and a == b
+                       for a in have for b in items):
+                    return 'boolnum'
     if isinstance(body, dict):
         for p, arg in body.items():
             if isinstance(arg, dict) and isinstance(arg.get('$each'), list):
